@@ -133,24 +133,6 @@ func c05QRDamage(r *fw.Rec, s *qrSym, kind int) bool {
 	return ok
 }
 
-func bitSubsets(n, maxK int) [][]int {
-	var out [][]int
-	out = append(out, nil)
-	for a := 0; a < n; a++ {
-		out = append(out, []int{a})
-		if maxK >= 2 {
-			for b := a + 1; b < n; b++ {
-				out = append(out, []int{a, b})
-				if maxK >= 3 {
-					for c := b + 1; c < n; c++ {
-						out = append(out, []int{a, b, c})
-					}
-				}
-			}
-		}
-	}
-	return out
-}
 
 func randSubset(rng *fw.Rand, n, maxK int) []int {
 	k := rng.Intn(maxK + 1)
@@ -366,7 +348,7 @@ func c05(c *fw.Ctx) {
 				})
 			}
 			// format / version information
-			if c.Quick() && (v*4+int(l))%8 != 0 {
+			if c.Quick() && int(l) != v%4 { // quick: every version once, levels rotating
 				continue
 			}
 			c.Run(fmt.Sprintf("qr/fmt/%d/%s", v, qrLevelName[l]), func(r *fw.Rec) {
